@@ -19,7 +19,7 @@ def key_of(step, clause):
     a = step['a']
     if step['op'] == 'measured':
         return 'Flash:measured:%s,%s,%s:%s' % (a['family'], 'ideal' if a['ideal'] else 'gamma', a['kind'], clause)
-    return 'Flash:%s:%s:%s' % (step['op'], a.get('region', ''), clause)
+    return 'Flash:%s:%s%s:%s' % (step['op'], a.get('region', ''), ',again' if a.get('again') else '', clause)
 
 
 def run(ctx):
@@ -40,7 +40,8 @@ def run(ctx):
         if a['region'] == 'two':
             op = rng.choice(['tp_exact', 'tp_exact', 'tv_exact', 'pv_exact'])
         a = dict(a, scaled=rng.random() < 0.5)
-        obs = df.exact(op, a, rng.choice([1e-3, 40., 1000.]) if a['scaled'] else 1., rng.random() < 0.3)
+        a['again'] = rng.random() < 0.3          # a second call on a stream that was flashed before with another amount of the same feed
+        obs = df.exact(op, a, rng.choice([1e-3, 40., 1000., 1e-10]) if a['scaled'] else 1., rng.random() < 0.3, rng.choice([1., 7., 0.01]) if a['again'] else None)
         steps.append(dict(op=op, a=a, post=zero, obs=obs))
     for k in range(120 if quick else 4000):
         fam = rng.choice(sorted(df.FAMILIES))
